@@ -12,6 +12,7 @@ import (
 )
 
 func bufAnchors(c *Ctx) *bufRoles {
+	flattenFields = true // stays on for the rest of this run: every rule set that does not want it starts with setFlatten(false)
 	setUnitExclude()
 	r := resolveBufRoles(c.P)
 	setUnitExclude(r.growFn, r.availFn, r.sizeFn)
